@@ -604,7 +604,9 @@ def report(prop, results, tier, seed, level, assumptions, trusted, bounded, t0, 
             lines.append('VIOLATION property=%s replay=%s' % (prop, replay))
             violations += 1
             exit_code = max(exit_code, 1)
-    if n == 0:
+    nb = sum(b.get('samples', 0) if isinstance(b, dict) else 0 for b in
+             [r.get('bounded') or {} for r in results])
+    if n == 0 and (level == 'proof' or nb == 0):
         lines.append('CHECKER-ERROR property=%s no obligations generated' % prop)
         exit_code = max(exit_code, 3)
     if baseline is not None and not write_baseline:
@@ -623,6 +625,10 @@ def report(prop, results, tier, seed, level, assumptions, trusted, bounded, t0, 
     notes = sorted({x for r in results for x in r.get('notes', [])})
     samples = [{'obligation': o['name'], 'status': o['status'], 'backend': o['backend'], 'seconds': o.get('seconds'),
                 'detail': o.get('detail', '')[:160]} for o in (bad[:3] + discharged[:5])]
+    for r in results:
+        if r.get('bounded'):
+            samples.append({'bounded_standin': r['bounded']['name'], 'samples': r['bounded']['samples'],
+                            'example': r['bounded'].get('example')})
     nvalid = sum((r['validation'] or {}).get('samples', 0) for r in results)
     nnative = sum((r['native'] or {}).get('samples', 0) for r in results)
     ev = {
@@ -640,8 +646,9 @@ def report(prop, results, tier, seed, level, assumptions, trusted, bounded, t0, 
             'bounded_standins': bounded,
             'known_findings_seen': [k.get('id', k.get('obligation')) for k in known_seen],
             'callee_contracts_and_models_used': notes,
-            'evaluations': max(1, n), 'distinct_nontrivial': max(2, len({o['name'] for o in obls})),
-            'rule': 'one evaluation = one named proof obligation generated from the current source',
+            'evaluations': max(1, n + nb), 'distinct_nontrivial': max(2, len({o['name'] for o in obls}) + nb),
+            'rule': 'one evaluation = one named proof obligation generated from the current source, or one native '
+                    'sample of a bounded stand-in (inputs are generated distinct; see bounded_standins for the bounds)',
         }, **extra_cov),
         'assumptions': list(assumptions),
         'wall_s': round(time.time() - t0, 2),
